@@ -264,6 +264,12 @@ def gen(rng, tier):
             yield 'fsr 64 %x %s' % (radix, tx(ch))
             yield 'fsr 64 %x %s' % (radix, tx('1' + ch))
             yield 'fsr 8 %x %s' % (radix, tx(ch + 'B'))
+    # 2b. every Unicode scalar value (exhaustive over `char`), as the second character of "1<c>": main radices quick, all thorough
+    sweep_radices = [10, 16, 36, 37, 64] + ([rng.randrange(2, 36), rng.randrange(38, 64)] if tier == 'quick' else
+                                              [r for r in range(2, 65) if r not in (10, 16, 36, 37, 64)])
+    for radix in sweep_radices:
+        for lo in range(0, 0x110000, 0x8000):
+            yield 'sweep 64 %x %x-%x' % (radix, lo, lo + 0x7fff)
     # 3. every digit value of every radix, alone (alphabet walk) for radices 0..=65
     for radix in range(0, 66):
         for d in range(64):
@@ -321,6 +327,13 @@ def gen(rng, tier):
 def shrink_candidates(c):
     t = c.split(' ')
     op = t[0]
+    if op == 'sweep':
+        lo, hi = [int(x, 16) for x in t[3].split('-')]
+        if lo < hi:
+            mid = (lo + hi) // 2
+            yield ' '.join(t[:3] + ['%x-%x' % (lo, mid)])
+            yield ' '.join(t[:3] + ['%x-%x' % (mid + 1, hi)])
+        return
     if op in ('fsr', 'fs'):
         k = len(t) - 1
         if t[k] == '-':
